@@ -91,6 +91,19 @@ def cases(tier, seed):
                     ops += ["rp.backend 0 5 %d" % n] + feed(serial, R.frame(R.RREQ, o, 0, n, 200 + n, n)) + rpf()
                 for n in (1, 2, 3):
                     ops += ["rp.backend 0 0 0"] + feed(serial, R.frame(R.WREQ, o, 0, n, 300 + n, n, R.rbytes(rnd, n * unit))) + rpf()
+            # write requests whose announced block size is not the payload that arrived - by one, and by amounts whose octet
+            # count does not fit 32 bits (0x80000000 + k words with k words present): refused, never executed
+            for ws16 in (True, False):
+                u = 2 if ws16 else 1
+                for k in (0, 1, 2, 5):
+                    for size in (k + 1, max(0, k - 1), 0x80000000 + k, 0x7fffffff + k, 0xffffffff, 0x40000000 + k, 0xc0000000 + k):
+                        if size == k:
+                            continue
+                        o = R.transport_opts(serial, R.WS16 if ws16 else 0, [1] * (k * u))
+                        pl = R.rbytes(rnd, k * u, special=False)
+                        ops += ["rp.backend 0 0 0"] + feed(serial, R.frame(R.WREQ, o, 0, size & 0xffff, 400 + k, size, pl)) + rpf()
+                        if not serial:
+                            ops += ["rp.backend 0 0 0"] + feed(serial, R.frame(R.WREQ, (R.WS16 if ws16 else 0), 0, k, 500 + k, size, pl)) + rpf()
             # largest writes
             for n in range(max(1, wcap - 2), wcap + 1):
                 ops += ["rp.backend 0 0 0"] + feed(serial, R.request(serial, True, mem == 16, n, n, n, R.rbytes(rnd, n * unit))) + rpf()
